@@ -77,7 +77,8 @@ def _guard_kinds(f, store):
     """Conjuncts under which `result[i] = ...` executes, classified: 'present' (not missing[i]), 'nonempty' (stop > start of
     element i), 'unknown'.  Recognises enclosing ifs (and-conjunctions) and a leading `if missing[i]: continue`."""
     idx = norm(store.targets[0].slice)
-    miss = f.params[4] if len(f.params) > 4 else 'missing'
+    cands = [p_ for p_ in f.params if any(k in p_.lower() for k in ('miss', 'isna', 'null', 'invalid'))]
+    miss = cands[0] if cands else (f.params[4] if len(f.params) > 4 else 'missing')
     kinds = set()
 
     def classify(t, negate=False):
@@ -138,8 +139,11 @@ MAP_GUARDS = {}
 
 def map_kernels(P, R):
     BL = 'spatialpandas.geometry.baselist'
-    for n in (1, 2, 3):
-        f = P.func(BL, f'_geometry_map_nested{n}')
+    kernels = [(int(g.name[-1]) if g.name[-1].isdigit() else None, g) for g in P.mods[BL].funcs.values()
+               if g.name.startswith('_geometry_map') and P.is_jit(g) and len(g.params) >= 5]
+    if not kernels:
+        raise AnalysisError(f'function {BL}:_geometry_map_nested* not found (anchor vanished)')
+    for n, f in kernels:
         for x in ast.walk(f.node):
             for ch in ast.iter_child_nodes(x):
                 ch._parent = x
@@ -158,7 +162,8 @@ def map_kernels(P, R):
             t = a.test
             if isinstance(t, ast.Compare) and 'len(' in norm(t.left) and isinstance(t.comparators[0], ast.Constant):
                 depth = t.comparators[0].value
-        R.check(depth == n, 'C14.b', f, asserts[0] if asserts else None, f'{f.name} handles exactly {n} offset level(s)', f'{f.name} asserts depth {depth}', nontrivial=False)
+        if n is not None:
+            R.check(depth == n, 'C14.b', f, asserts[0] if asserts else None, f'{f.name} handles exactly {n} offset level(s)', f'{f.name} asserts depth {depth}', nontrivial=False)
 
 
 def _prefill_kind(P, caller, d):
